@@ -4,7 +4,7 @@
 //! through the evaluation-counting wrapper of c06.rs (two evaluations per pass: g and g').
 //! The property's oracle is tools/props/c07.py (exact rationals).
 #![allow(dead_code)]
-use crate::c06::{as_kind, expand_roots, pick_itermax, pick_tol, show_solver, small_root, solver_err_kind, times_quadratic, Counting};
+use crate::c06::{as_kind, as_kind_named, expand_roots, pick_itermax, pick_tol, show_solver, small_root, solver_err_kind, times_quadratic, Counting};
 use crate::polyio::*;
 use crate::util::*;
 use spindalis::solvers::{newton_raphson_method, SolveMode, SolverError};
@@ -45,9 +45,113 @@ fn answer(line: &str) -> String {
     format!("{} {}", show_solver(&direct), (evals + 1) / 2)
 }
 
+/// `(|coefficient|, exponent)` of every term of a univariate polynomial (None: several variables / unbound variable)
+fn abs_terms(p: &AnyPoly) -> Option<Vec<(f64, f64)>> {
+    match p {
+        AnyPoly::S(q) => Some(q.coefficients.iter().enumerate().map(|(k, c)| (c.abs(), k as f64)).collect()),
+        AnyPoly::I(q) => {
+            if q.variables.len() > 1 {
+                return None;
+            }
+            let mut out = Vec::new();
+            for t in &q.terms {
+                let mut e = 0.0;
+                for (name, pw) in &t.variables {
+                    if Some(name) != q.variables.first() {
+                        return None;
+                    }
+                    e += *pw;
+                }
+                out.push((t.coefficient.abs(), e));
+            }
+            Some(out)
+        }
+    }
+}
+
+/// `sum |c| sup{ |t|^e : a <= |t| <= b }` — an upper bound of |q| on a <= |t| <= b (0 <= a <= b)
+fn sup_abs(terms: &[(f64, f64)], a: f64, b: f64) -> f64 {
+    let mut s = 0.0;
+    for (c, e) in terms {
+        if *c == 0.0 {
+            continue;
+        }
+        s += c * if *e >= 0.0 { b.powf(*e) } else { a.powf(*e) };
+    }
+    s
+}
+
+/// Independent re-derivation, through the public API, of what the statement promises about a returned value:
+/// `x` is finite, and the last step really was below the requested relative tolerance.  The harness takes one more
+/// Newton step from the returned `x` (target and derivative evaluated by the library itself): with tau = tol/100 the
+/// last step was shorter than tau|x|, so Taylor's theorem on the segment between the previous iterate and `x` gives
+/// |g(x)| <= (M/2)(tau|x|)^2 + rounding with M >= max|g''| on |t - x| <= tau|x|, and therefore the next step
+/// |g(x)/g'(x)| is at most that over |g'(x)|.  M is bounded term by term from the library's own second derivative;
+/// the rounding slack is 1e-9 of the magnitudes of the terms of g and x g' (the code's own error is ~1e-15 of
+/// them), so correct code cannot trip it.  The check abstains where g is not twice differentiable on that segment
+/// (negative / fractional exponents with the segment reaching 0 or the negative axis).
+fn step_verdict(line: &str, answer: &str) -> Option<Result<(), String>> {
+    let mut a = answer.split_ascii_whitespace();
+    if a.next() != Some("ok") {
+        return None;
+    }
+    let x = f64::from_bits(a.next()?.strip_prefix('f')?.parse::<u64>().ok()?);
+    if !x.is_finite() {
+        return Some(Err(format!("returned value {x:?} is not finite")));
+    }
+    let mut t = Toks::new(line);
+    t.tok();
+    let p = read_any(&mut t);
+    let (_x0, tol) = (t.f64(), t.f64());
+    t.tok();
+    let extrema = t.tok() == "extrema";
+    if !(tol.is_finite() && tol > 0.0) {
+        return Some(Ok(()));
+    }
+    let g = if extrema { crate::polyops::deriv_uni(&p).ok()? } else { p };
+    let dg = crate::polyops::deriv_uni(&g).ok()?;
+    let d2g = crate::polyops::deriv_uni(&dg).ok()?;
+    let (tg, tdg, td2) = (abs_terms(&g)?, abs_terms(&dg)?, abs_terms(&d2g)?);
+    // (terms with a zero coefficient count too: 0 * (-1)^1.5 is NaN)
+    let all = || tg.iter().chain(tdg.iter()).chain(td2.iter());
+    let fractional = all().any(|(_, e)| e.fract() != 0.0 || !e.is_finite());
+    let negative = all().any(|(_, e)| *e < 0.0);
+    let tau = tol / 100.0;
+    let s = tau * x.abs();
+    let (lo, hi) = ((x.abs() - s).max(0.0), x.abs() + s);
+    if (fractional && !(x > 0.0 && x - s > 0.0)) || (negative && !(lo > 0.0)) {
+        return Some(Ok(())); // g is not C^2 on the segment: the second-order bound does not apply
+    }
+    let gx = crate::polyops::eval_uni(&g, x).ok()?;
+    let dgx = crate::polyops::eval_uni(&dg, x).ok()?;
+    let m = sup_abs(&td2, lo, hi);
+    // absolute floor of binary64 (as in the exact oracle): every power and product may be off by 2^-1074 in absolute
+    // terms, and a quotient g/g' may underflow to 0 (a huge derivative next to a tiny residual)
+    let floor = f64::from_bits(16) * (1.0 + tg.iter().map(|(c, _)| *c).sum::<f64>() + sup_abs(&tdg, lo, hi)) + 1e-290;
+    let slack = 1e-9 * (sup_abs(&tg, lo, hi) + hi * sup_abs(&tdg, lo, hi)) + floor;
+    let bound = 0.5 * m * s * s * (1.0 + 1e-6) + slack;
+    if !bound.is_finite() || bound.is_nan() {
+        return Some(Ok(()));
+    }
+    if gx.is_nan() {
+        return Some(Err(format!("returned x = {x:?} although the target evaluates to NaN there")));
+    }
+    if gx.abs() > bound {
+        let step = gx / dgx;
+        return Some(Err(format!(
+            "returned x = {x:?}: one more Newton step from it has length {:?} = {:?} of |x| (tolerance {tol:?} %); |g(x)| = {:?} exceeds (M/2)(tol% |x|)^2 + slack = {bound:?}, so the last step was not below the tolerance",
+            step.abs(), (step / x).abs(), gx.abs()
+        )));
+    }
+    Some(Ok(()))
+}
+
 pub fn run(line: &str) -> Obs {
     match catch(|| answer(line)) {
-        Some(s) => Obs::plain(s),
+        Some(s) => {
+            let verdict = catch(|| step_verdict(line, &s)).flatten();
+            Obs { obs: s, oracle: verdict }
+        }
         None => Obs::plain("panic".into()),
     }
 }
@@ -228,6 +332,160 @@ pub fn generate(seed: u64, thorough: bool, emit: &mut dyn FnMut(String)) {
                 let x0 = if rng.chance(1, 8) { 0.0 } else { rng.uniform(-6.0, 6.0) };
                 let itermax = pick_itermax(&mut rng).min(if rng.chance(1, 2) { 300 } else { 5000 });
                 emit_req(emit, &p, x0, pick_tol(&mut rng, true), itermax, extrema);
+            }
+        }
+    }
+    generate_hardening(seed, thorough, emit);
+}
+
+/// an antiderivative of g (the library's derivative of it is g up to rounding)
+fn antiderivative(g: &[f64], c0: f64) -> Vec<f64> {
+    let mut p = vec![c0];
+    for (k, a) in g.iter().enumerate() {
+        p.push(*a / (k as f64 + 1.0));
+    }
+    p
+}
+
+fn generate_hardening(seed: u64, thorough: bool, emit: &mut dyn FnMut(String)) {
+    let mut rng = Rng::new(seed ^ 0xC07_5CA1E);
+    // ---- (1) the whole real line rescaled: every decade 1e-20..1e20 and every binade 2^-70..2^60.  A step test in
+    //      absolute units ("|dx| < EPSILON") stops after one step at the small scales (the residual is then far above
+    //      the second-order bound) and never stops at the large ones (no value in the monotone case).
+    let n = if thorough { 100_000 } else { 3000 };
+    for i in 0..n {
+        let simple = rng.chance(1, 2);
+        let extrema = rng.chance(1, 5);
+        let s = if i % 2 == 0 { 10f64.powi(((i / 2) % 41) as i32 - 20) } else { 2f64.powi(((i / 2) % 131) as i32 - 70) };
+        let deg = rng.range(1, 6) as usize;
+        let with_zero = rng.chance(1, 6);
+        let mut ms = separated_roots(&mut rng, deg, with_zero, i % 2 == 1);
+        if with_zero && i % 2 == 1 && rng.chance(1, 2) {
+            let shift = if rng.chance(1, 2) { ms[ms.len() - 1] } else { ms[0] };
+            for r in ms.iter_mut() {
+                *r -= shift;
+            }
+        }
+        let roots: Vec<f64> = ms.iter().map(|m| m * s).collect();
+        // g(x) = amp * c0 * s * prod ((x - r_i) / s): coefficients amp * c0 * a_k * s^(1-k)
+        let amp = match rng.below(6) {
+            0 | 1 | 2 => 1.0,
+            3 => 1.0 / s,
+            4 => s,
+            _ => 10f64.powi(rng.range(-6, 6) as i32),
+        };
+        let c0 = *rng.pick(&[1.0, -1.0, 2.0, -0.5, 3.0, 0.25]);
+        let unit = expand_roots(1.0, &ms);
+        let mut g: Vec<f64> = unit.iter().enumerate().map(|(k, a)| amp * c0 * a * s * s.powi(-(k as i32))).collect();
+        if g.iter().any(|c| !c.is_finite()) {
+            g = expand_roots(c0, &roots);
+        }
+        let cs = if extrema { antiderivative(&g, c0 * amp * s) } else { g };
+        let (lo, hi) = (roots[0], roots[roots.len() - 1]);
+        let span = (hi - lo).max(s);
+        let x0 = match rng.below(10) {
+            0 => hi + span * rng.uniform(0.01, 0.5),
+            1 => hi + span * rng.uniform(0.5, 20.0),
+            2 => lo - span * rng.uniform(0.01, 0.5),
+            3 => lo - span * rng.uniform(0.5, 20.0),
+            4 => hi + s * rng.range(1, 9) as f64,
+            5 => lo - s * rng.range(1, 9) as f64,
+            // anywhere (soundness half): between the roots, next to a root, on a root
+            6 => lo + (hi - lo) * rng.unit(),
+            7 => *rng.pick(&roots) * (1.0 + rng.uniform(-0.3, 0.3)) + s * rng.uniform(-0.2, 0.2),
+            8 => *rng.pick(&roots),
+            _ => s * rng.uniform(-8.0, 8.0),
+        };
+        let tol = if rng.chance(3, 4) { *rng.pick(&[1e-9, 1e-8, 1e-7, 1e-6, 1e-5, 1e-4, 1e-3, 0.01, 0.1, 1.0, 10.0]) } else { pick_tol(&mut rng, true) };
+        let itermax = if rng.chance(4, 5) { *rng.pick(&[2000usize, 3000, 5000]) } else { pick_itermax(&mut rng) };
+        let p = as_kind_named(&cs, simple, &mut rng);
+        emit_req(emit, &p, x0, tol, itermax, extrema);
+    }
+    // ---- (2) ill-scaled polynomials: every root at its own scale 1e-20..1e20
+    let n = if thorough { 30_000 } else { 1000 };
+    for _ in 0..n {
+        let simple = rng.chance(1, 2);
+        let extrema = rng.chance(1, 6);
+        let deg = rng.range(1, 5) as usize;
+        let mut roots: Vec<f64> = Vec::new();
+        for _ in 0..deg {
+            let e = rng.range(-20, 20) as i32;
+            roots.push(*rng.pick(&[1.0, -1.0, 2.5, -3.0, 7.0]) * 10f64.powi(e));
+        }
+        roots.sort_by(|a, b| a.partial_cmp(b).unwrap());
+        roots.dedup();
+        let g = expand_roots(*rng.pick(&[1.0, -1.0, 2.0, 0.5]), &roots);
+        if g.iter().any(|c| !c.is_finite()) {
+            continue;
+        }
+        let cs = if extrema { antiderivative(&g, rng.range(-3, 3) as f64) } else { g };
+        let r = *rng.pick(&roots);
+        let x0 = match rng.below(6) {
+            0 => r * (1.0 + rng.uniform(0.01, 0.5)),
+            1 => r * (1.0 - rng.uniform(0.01, 0.5)),
+            2 => roots[roots.len() - 1] + roots[roots.len() - 1].abs() * rng.uniform(0.1, 30.0),
+            3 => roots[0] - roots[0].abs() * rng.uniform(0.1, 30.0),
+            4 => 0.0,
+            _ => r * 10f64.powi(rng.range(-3, 3) as i32),
+        };
+        let p = as_kind_named(&cs, simple, &mut rng);
+        let itermax = if rng.chance(2, 3) { *rng.pick(&[2000usize, 3000]) } else { pick_itermax(&mut rng) };
+        emit_req(emit, &p, x0, pick_tol(&mut rng, true), itermax, extrema);
+    }
+    // ---- (3) degrees beyond 7 (8..24)
+    let n = if thorough { 10_000 } else { 300 };
+    for i in 0..n {
+        let simple = rng.chance(1, 2);
+        let extrema = rng.chance(1, 4);
+        let deg = 8 + (i % 17) as usize;
+        let halves: Vec<f64> = (0..deg).map(|_| rng.range(-4, 4) as f64 / 2.0).collect();
+        let g = expand_roots(*rng.pick(&[1.0, -1.0, 0.5]), &halves);
+        let x0 = match rng.below(4) {
+            0 => rng.range(3, 9) as f64,
+            1 => -(rng.range(3, 9) as f64),
+            2 => *rng.pick(&halves) + rng.uniform(-0.2, 0.2),
+            _ => rng.uniform(-4.0, 4.0),
+        };
+        let p = as_kind_named(&g, simple, &mut rng);
+        emit_req(emit, &p, x0, pick_tol(&mut rng, true), *rng.pick(&[100usize, 2000, 3000]), extrema);
+    }
+    // ---- (4) signed zeros and exact ties at the start; caps next to the integer limits on quickly converging inputs
+    {
+        let polys: [&[f64]; 6] = [
+            &[0.0, 1.0],            // x
+            &[-0.0, 2.0],           // 2x - 0
+            &[0.0, 0.0, 1.0],       // x^2
+            &[0.0, -1.0, 0.0, 1.0], // x^3 - x
+            &[-4.0, 0.0, 1.0],      // x^2 - 4: zero derivative at 0
+            &[2.0, -2.0, 0.0, 1.0], // 0 -> 1 -> 0 cycle
+        ];
+        for cs in polys {
+            for x0 in [0.0f64, -0.0, 1.0, -1.0, 2.0, -2.0, f64::from_bits(1), -f64::MIN_POSITIVE, 1e-300, -1e300] {
+                for simple in [true, false] {
+                    let p = if simple { simple_of(cs) } else { inter_of(cs, true) };
+                    for extrema in [false, true] {
+                        for (tol, cap) in [(1e-9, 3000usize), (50.0, 100), (150.0, 3), (0.0, 40)] {
+                            emit_req(emit, &p, x0, tol, cap, extrema);
+                        }
+                    }
+                }
+            }
+        }
+        let caps: [usize; 10] = [
+            u32::MAX as usize, (1usize << 32) + 1, (1usize << 32) - 2, 65535, 65536, 65537, (1usize << 31) + 3, i64::MAX as usize,
+            (i64::MAX as usize) + 2, usize::MAX - 7,
+        ];
+        for cap in caps {
+            for (cs, x0) in [(&[-4.0, 0.0, 1.0][..], 5.0), (&[0.0, 2.0, -3.0, 1.0][..], 4.0), (&[-3.0, 2.0][..], -7.0), (&[0.0, -1.0, 0.0, 1.0][..], 3.0)] {
+                for simple in [true, false] {
+                    let p = if simple { simple_of(cs) } else { inter_of(cs, false) };
+                    for extrema in [false, true] {
+                        if extrema && cs.len() == 2 {
+                            continue;
+                        }
+                        emit_req(emit, &p, x0, 1e-8, cap, extrema);
+                    }
+                }
             }
         }
     }
